@@ -16,7 +16,8 @@ EXPLANATION = (
     ' REFILL: the buffer handed to read() by the inline channel is a whole buffer of positive constant length; FRAG-ID: fragment ids come from a counter shared by all writers of a connection.'
     ' ERR also requires that no Ok(Some(frame)) is reachable from the Err edge of a receive result before the next receive; LBL includes the session-target label of listener-side sessions.'
     ' HEAD: Frame::read_head and Frame::from_buffer agree on header fields and size, and the frame length is not computed at a width where ATTR_LEN + BODY_LEN can wrap (a sum formed at u16 and widened afterwards is not that sum).'
-    ' RECV-BUF: every datagram receive site gets a buffer of constant length >= 65527 (the largest UDP payload; 65507 is the IPv4 figure).')
+    ' RECV-BUF: every datagram receive site gets a buffer of constant length >= 65527 (the largest UDP payload; 65507 is the IPv4 figure).'
+    ' QBUF: quinn datagram buffers are not sized below one maximum frame on the wire.')
 RULE_TEXT = "instances = frame locals, receive sites, writer impls, session maps"
 TRUSTED = ["kernel UDP demultiplexing between listener and connected session sockets", "mpsc channels deliver what is sent"]
 NOT_DECIDED = ["delivery as exactly one datagram across the network", "cross-session behaviour under concurrency", "kernel demultiplexing"]
@@ -229,11 +230,57 @@ def rule_recv_buf(chk, prog, rule="RECV-BUF"):
 
 
 
+
+MAX_FRAME_ON_WIRE = 65535 + 12 + 255 + 127 * 4      # body + fixed head + longest address attribute + one fragment header per fragment
+
+
+def rule_quic_datagram_buffers(chk, prog, rule="QBUF"):
+    """QuicFrameWriter hands all fragments of one frame (up to 127) to send_datagram in one go, and quinn drops the oldest queued datagram
+    when its datagram send buffer overflows - silently, send_datagram still answers Ok.  A send (or receive) buffer smaller than one whole
+    frame on the wire therefore loses large datagrams on an idle connection.  Sites = calls that size the datagram buffers of a quinn
+    TransportConfig; each constant must cover one maximum frame (the default of 1 MiB does).  Transport configuration sites are the floor."""
+    if "quic" not in prog.features:
+        return
+    n = 0
+    cfgs = 0
+    for f in sorted(prog.fns.values(), key=lambda x: x.key):
+        if f.crate != "redproxy_rs":
+            continue
+        for c in f.calls:
+            p_ = c.path or ""
+            if re.search(r"TransportConfig::(default|new)$|TransportConfig as core::default::Default>::default$", p_) or \
+                    (re.search(r"default::Default::default$", p_) and c.dest and "TransportConfig" in f.local_ty_s(c.dest[0])):
+                cfgs += 1
+            m = re.search(r"TransportConfig::(datagram_send_buffer_size|datagram_receive_buffer_size)$", p_)
+            if not m or len(c.args) < 2:
+                continue
+            n += 1
+            v = f.int_of(c.args[1])
+            if v is None and op_base(c.args[1]) is not None:
+                for k, info in f.trace(op_base(c.args[1])):
+                    if k == "agg" and info.get("variant") == "Some" and info.get("ops"):
+                        v = f.int_of(info["ops"][0])
+                    if k == "agg" and info.get("variant") == "None":
+                        v = 0 if m.group(1).startswith("datagram_receive") else None
+            ok = v is None or v >= MAX_FRAME_ON_WIRE
+            chk.instance(rule, c.where(), "%s(%s) in %s covers one whole frame" % (m.group(1), v if v is not None else "a computed value", f.path), ok,
+                         "needs >= %d" % MAX_FRAME_ON_WIRE)
+            if not ok:
+                chk.finding(rule, f.key, m.group(1), "", c.where(),
+                            "%s sets quinn's %s to %d bytes, less than one maximum frame on the wire (%d): the fragments of a large datagram are "
+                            "queued in one go and the oldest are dropped without an error, so the datagram is lost on an otherwise idle "
+                            "connection" % (f.path, m.group(1), v, MAX_FRAME_ON_WIRE))
+    chk.instance(rule, "src/common/quic.rs", "quinn's datagram buffers are left at a size that holds a whole frame", True, "%d sizing call(s), %d transport configuration site(s)" % (n, cfgs), nontrivial=False)
+    chk.floor(rule, cfgs, 2, "quinn TransportConfig construction sites")
+
+
+
 def run(chk, prog):
     rule_refill(chk, prog)
     rule_session_label(chk, prog)
     rule_frag_id(chk, prog)
     rule_recv_buf(chk, prog)
+    rule_quic_datagram_buffers(chk, prog)
     # the inline (stream) channel cuts frames by Frame::read_head: its length arithmetic must agree with from_buffer and must not wrap
     # for a maximum-size datagram with a long address label
     from .c12 import rule_head_agreement
